@@ -247,7 +247,9 @@ pub assume_specification<T, U, F: FnOnce(T) -> U> [Option::<T>::map_or] (a: Opti
 pub assume_specification<T, P: FnOnce(&T) -> bool> [Option::<T>::filter] (a: Option<T>, p: P) -> (r: Option<T>)
     requires a is Some ==> p.requires((&a->Some_0,)),
     ensures a is None ==> r is None, r is Some ==> r == a,
-            a is Some ==> (p.ensures((&a->Some_0,), true) ==> r == a) && (p.ensures((&a->Some_0,), false) ==> r is None);
+            a is Some ==> (p.ensures((&a->Some_0,), true) ==> r == a) && (p.ensures((&a->Some_0,), false) ==> r is None),
+        // the predicate returned SOME boolean for the element, and the result follows it
+        a is Some ==> exists|__b: bool| p.ensures((&a->Some_0,), __b) && r == (if __b { a } else { None::<T> });
 pub assume_specification<T, E, U, F: FnOnce(T) -> Result<U, E>> [Result::<T, E>::and_then] (a: Result<T, E>, f: F) -> (r: Result<U, E>)
     requires a is Ok ==> f.requires((a->Ok_0,)),
     ensures a is Err ==> r == Err::<U, E>(a->Err_0), a is Ok ==> f.ensures((a->Ok_0,), r);
